@@ -82,6 +82,17 @@ def gen_world(t):
         base.append(["M", mp])
     elif mpos == "middle":
         base.insert(len(base) // 2 if len(base) > 1 else 0, ["M", mp])
+    if mpos not in ("absent", "alone") and t.chance(1, 8):
+        # a very small --coverage: the Markov structure has all but 1e-10 .. 1e-12 of the probability mass
+        near = t.choice(["0.9999999999", "0.999999999999", "0.99999999"])
+        rest = ["6e-11", "3e-11", "1e-11", "5e-12", "1e-12"]
+        k = 0
+        for b in base:
+            if b[0] == "M":
+                b[1] = near
+            else:
+                b[1] = rest[min(k, len(rest) - 1)]
+                k += 1
     spec["base"] = base
     spec["mpos"] = mpos
     return spec
